@@ -20,6 +20,8 @@ NOT_PROVED = ["C10.d for the default Arias (trapezoid) measure when a[0] != 0: f
 FRACS = [Fraction(1, 16), Fraction(1, 8), Fraction(1, 4), Fraction(3, 8), Fraction(1, 2), Fraction(5, 8), Fraction(3, 4), Fraction(7, 8), Fraction(15, 16)]
 
 
+PROP_MODULES = ['C10', 'C10Gen']
+
 def spec_sigdur(cum, dt, s, e):
     """(t_start, t_end) from a cumulative series, exact; None when no sample lies strictly between"""
     tot = cum[-1]
